@@ -230,6 +230,12 @@ class World:
                     m.globals[s.targets[0].id] = RegexVal(s.value.args[0].value, 0, s.value.func.value.id)
                 except Exception:
                     pass     # a pattern CPython's sre cannot parse (\\p{..}): left undefined -> unsupported on use
+        for s in m.tree.body:
+            if isinstance(s, ast.Assign) and len(s.targets) == 1 and isinstance(s.targets[0], ast.Name):
+                nm = s.targets[0].id
+                if nm not in m.globals and isinstance(s.value, ast.Call):
+                    # a module-level object the loader cannot evaluate (default scorer, logger, ...)
+                    m.globals[nm] = Tok("%s.%s" % (self.short(m.name), nm))
         if m.name == "ctparse.time.rules":
             # `from ..types import pod_hours` etc. are handled by ImportFrom; rule-decorated functions
             # are bound to the *wrapper* at run time (see World.rule_wrapper)
@@ -274,7 +280,7 @@ class World:
             r = self._resolve_name(mm, name)
             return r
         ext = {
-            ("datetime", "datetime"): Builtin("datetime", models.make_datetime),
+            ("datetime", "datetime"): DATETIME_CLASS,
             ("dateutil.relativedelta", "relativedelta"): Builtin("relativedelta", models.make_relativedelta),
             ("dateutil.rrule", "rrule"): Builtin("rrule", models.make_rrule),
             ("dateutil.rrule", "MONTHLY"): 1,
@@ -308,7 +314,7 @@ class World:
                 if not (isinstance(s, ast.Assign) and len(s.targets) == 1 and isinstance(s.targets[0], ast.Name)):
                     continue
                 name = s.targets[0].id
-                if name in m.globals or not isinstance(s.value, ast.Call):
+                if (name in m.globals and not isinstance(m.globals[name], Tok)) or not isinstance(s.value, ast.Call):
                     continue
                 fn = s.value.func
                 if not (isinstance(fn, ast.Name) and isinstance(m.globals.get(fn.id), ClassVal)):
@@ -680,6 +686,22 @@ class World:
                     names.add(n.arg)
             self._locals_cache[k] = names
         return self._locals_cache[k]
+
+
+def _now(it, a, k):
+    """datetime.now(): a fresh, unconstrained wall-clock reading; the ghost list records in which
+    phase (import: default-argument evaluation / call) it was taken"""
+    from .models import DT
+    n = len(it.ghost.setdefault("clock_reads", []))
+    dt = DT(*[z3.Int("now%d.%s" % (n, f)) for f in DT.FIELDS])
+    dt.phase = getattr(it, "phase", "call")
+    dt.is_now = True
+    it.ghost["clock_reads"].append(dt)
+    return dt
+
+
+DATETIME_CLASS = Builtin("datetime", models.make_datetime)
+DATETIME_CLASS.attrs = {"now": Builtin("datetime.now", _now)}
 
 
 def _copy(it, a, k):
